@@ -16,10 +16,11 @@ RULE = ("cases = site-model kind x (shape 1e-2..1e2, p_inv in [0,0.99], K 1..16,
         "non-trivial = more than one category or a relative rate; distinct by (kind,K,rounded parameters)")
 ASSUMPTIONS = ["the identities of the statement are the specification; individual Weibull rates are compared with the median-of-equiprobable-bins discretisation written from the formula"]
 BUDGET = {"quick": 60, "thorough": 400}
-FLOORS = {"identity_checks": 200, "after_update_checks": 100, "batched_slices": 50, "kinds": 4}
+ROUNDS = {"thorough": 16}
+FLOORS = {"overlay.C05.judged": {"quick": 100, "thorough": 1500}, "read_orders": 3, "identity_checks": 200, "after_update_checks": 100, "batched_slices": 50, "kinds": 4}
 
 
-def cases(tier, seed):
+def _cases(tier, seed):
     rng = np.random.default_rng([seed, 5])
     n = {"quick": 1600, "thorough": 20000}[tier]
     out = []
@@ -38,7 +39,7 @@ def cases(tier, seed):
             if "mu" in s and "mu" not in upd and rng.random() < 0.5:
                 upd["mu"] = float(gm.loguniform(rng, 0.05, 20))
             hist.append(upd)
-        out.append({"site": s, "history": hist, "batch": int(rng.choice([0, 0, 1, 2, 3, 4])),
+        out.append({"site": s, "history": hist, "batch": int(rng.choice([0, 0, 1, 2, 3, 4])), "read_orders": [int(x) for x in rng.integers(0, 3, 8)],
                     "batch_subset": [bool(rng.random() < 0.6) for _ in range(3)]})
     return out
 
@@ -82,7 +83,7 @@ def _np(x, kind):
     return tt.as_np(x, "C05:not-a-tensor:" + kind, "rates()/probabilities()")
 
 
-def run_case(case):
+def _run_case(case):
     import torch
 
     s = dict(case["site"])
@@ -90,7 +91,28 @@ def run_case(case):
     V = []
     C = {"identity_checks": 0, "after_update_checks": 0, "batched_slices": 0, "batched_raised": 0, "kinds": [kind]}
     model, dic = tt.load(gm.site_json(s))
-    _check(V, C, s, _np(model.rates(), kind), _np(model.probabilities(), kind), "initial")
+    orders = list(case.get("read_orders", [])) or [0]
+    reads = [0]
+
+    def read():
+        """rates() and probabilities() in a generated order (either accessor may be the one that finds the model dirty), sometimes twice"""
+        o = orders[reads[0] % len(orders)]
+        reads[0] += 1
+        if o == 0:
+            r = model.rates()
+            p = model.probabilities()
+        elif o == 1:
+            p = model.probabilities()
+            r = model.rates()
+        else:
+            p = model.probabilities()
+            p = model.probabilities()
+            r = model.rates()
+            r = model.rates()
+        C["read_orders"] = sorted(set(C.get("read_orders", [])) | {int(o)})
+        return _np(r, kind), _np(p, kind)
+
+    _check(V, C, s, *read(), "initial")
     # update history: assign new values through the public parameter interface, re-read (cache path)
     for upd in case["history"]:
         order = list(upd)
@@ -99,9 +121,9 @@ def run_case(case):
             s[k] = upd[k]
             if len(order) > 1 and k == order[0]:
                 # read between two updates so that the cache is clean when the next update arrives
-                _check(V, C, s, _np(model.rates(), kind), _np(model.probabilities(), kind), "after update of " + k)
+                _check(V, C, s, *read(), "after update of " + k)
                 C["after_update_checks"] += 1
-        _check(V, C, s, _np(model.rates(), kind), _np(model.probabilities(), kind), "after update of " + "+".join(order))
+        _check(V, C, s, *read(), "after update of " + "+".join(order))
         C["after_update_checks"] += 1
     # batched parameters
     B = case["batch"]
@@ -141,3 +163,20 @@ def run_case(case):
     if nontrivial:
         fp = "%s:%s:%s" % (kind, s.get("K"), ":".join("%.5g" % s[k] for k in ("shape", "pinv", "mu") if k in s))
     return {"violations": V, "counters": C, "fingerprint": fp, "sample": {"site": case["site"], "history": case["history"], "batch": B}}
+
+
+# ---------------------------------------------------------------- the same invariants as an overlay on realistic workloads
+def cases(tier, seed):
+    """the property's own generator plus the shared workloads (configurations emitted by torchtree-cli, loaded, evaluated and
+    really run for a few iterations; in thorough also the repository's own test-suite) with this property's contracts attached"""
+    from ..work import shared
+
+    return shared.overlay_cases(tier, seed, PROPERTY) + _cases(tier, seed)
+
+
+def run_case(case):
+    if isinstance(case, dict) and "overlay" in case:
+        from ..work import shared
+
+        return shared.run_overlay_case(case, PROPERTY)
+    return _run_case(case)
